@@ -434,6 +434,7 @@ class EngineBase(metaclass=ABCMeta):
         written = set()
         with open(sourcefile, encoding="utf-8") as infile:
             with open(outputfile, mode="w", encoding="utf-8") as outfile:
+                last_written = "\n"
                 for line in infile:
                     to_write = line
                     match = reg.match(line)
@@ -444,9 +445,14 @@ class EngineBase(metaclass=ABCMeta):
                             to_write = f"{keyword} {settings[keyword_strip]}\n"
                         written.add(keyword_strip)
                     outfile.write(to_write)
+                    last_written = to_write
                 # Add settings not yet written:
                 for key, value in settings.items():
                     if key not in written:
+                        if not last_written.endswith("\n"):
+                            # The template did not end with a newline.
+                            outfile.write("\n")
+                        last_written = "\n"
                         outfile.write(f"{key} {delim} {value}\n")
 
     @staticmethod
